@@ -42,6 +42,13 @@ pub trait Coll: Sized {
     /// drains `take` elements, then drops the drain
     fn drain_some(&mut self, take: usize) -> usize;
     fn check_findable(&self, d: &RawDump, f: &mut Facts, ctx: &str);
+    /// inserts the (absent) keys `ids` through `Extend`, from an iterator that reports `size_hint() = (lo, hi)`
+    /// (collections without `Extend` insert one by one)
+    fn extend_hinted(&mut self, ids: &[u32], gen: u16, _lo: usize, _hi: Option<usize>) {
+        for id in ids {
+            self.put(*id, gen);
+        }
+    }
 
     fn validate(&self, ctx: &str) -> Facts {
         let d = self.dump();
@@ -51,6 +58,27 @@ pub trait Coll: Sized {
         }
         crate::check!(self.len() == d.items, "{}: len() {} != items {}", ctx, self.len(), d.items);
         f
+    }
+}
+
+/// An iterator that yields `inner`'s items but reports the given size hint (a lawful one: lo <= items <= hi).
+pub struct Hinted<I> {
+    pub inner: I,
+    pub lo: usize,
+    pub hi: Option<usize>,
+}
+impl<I: Iterator> Iterator for Hinted<I> {
+    type Item = I::Item;
+    fn next(&mut self) -> Option<I::Item> {
+        let x = self.inner.next();
+        if x.is_some() {
+            self.lo = self.lo.saturating_sub(1);
+            self.hi = self.hi.map(|h| h.saturating_sub(1));
+        }
+        x
+    }
+    fn size_hint(&self) -> (usize, Option<usize>) {
+        (self.lo, self.hi)
     }
 }
 
@@ -147,6 +175,10 @@ impl<K: Elem, V: Elem> Coll for MapC<K, V> {
         }
         n
     }
+    fn extend_hinted(&mut self, ids: &[u32], gen: u16, lo: usize, hi: Option<usize>) {
+        let items: Vec<(K, V)> = ids.iter().map(|id| (K::make(*id, gen), V::make(*id % V::ID_SPACE, gen))).collect();
+        self.0.extend(Hinted { inner: items.into_iter(), lo, hi });
+    }
     fn check_findable(&self, d: &RawDump, f: &mut Facts, ctx: &str) {
         let bh = self.bh();
         let m = &self.0;
@@ -240,6 +272,10 @@ impl<T: Elem> Coll for SetC<T> {
             }
         }
         n
+    }
+    fn extend_hinted(&mut self, ids: &[u32], gen: u16, lo: usize, hi: Option<usize>) {
+        let items: Vec<T> = ids.iter().map(|id| T::make(*id, gen)).collect();
+        self.0.extend(Hinted { inner: items.into_iter(), lo, hi });
     }
     fn check_findable(&self, d: &RawDump, f: &mut Facts, ctx: &str) {
         let bh = self.bh();
